@@ -84,6 +84,10 @@ func (s *SchedCheck) CaseTimeout() time.Duration {
 }
 func (s *SchedCheck) CrashIsViolation() bool { return true }
 
+// HangIsViolation: only for the totality property (C10) does a confirmed hang or a process-level crash of the
+// scheduler refute the property; for the others the case is inconclusive.
+func (s *SchedCheck) HangIsViolation() bool { return s.PanicIsViolation }
+
 func hashCase(c *spec.Case) string {
 	b, _ := json.Marshal(struct {
 		O spec.Objects
